@@ -364,7 +364,8 @@ def _compute_integral_ir(
             "entity_type": entity_type,
             "shape": (),
             "coordinate_element_hash": itg_data.domain.ufl_coordinate_element().basix_hash(),
-            "number_coordinate_dofs": itg_data.domain.ufl_coordinate_element().dim,
+            "number_coordinate_dofs": itg_data.domain.ufl_coordinate_element().dim
+            // itg_data.domain.ufl_coordinate_element().block_size,
         }
         # Initial population of what will become the IntegralIR
         ir = {
@@ -681,7 +682,10 @@ def _compute_expression_ir(
         expr_domain.ufl_coordinate_element().basix_hash() if expr_domain is not None else 0
     )
     base_ir["number_coordinate_dofs"] = (
-        0 if expr_domain is None else expr_domain.ufl_coordinate_element().dim
+        0
+        if expr_domain is None
+        else expr_domain.ufl_coordinate_element().dim
+        // expr_domain.ufl_coordinate_element().block_size
     )
 
     weights = np.array([1.0] * points.shape[0])
